@@ -24,7 +24,16 @@ RULE = ('(1) bounded exhaustive: every sequence of enabled concrete operations (
         'inlets without outlets; construction forms (single, str, list of str, ins=() auto-create, mixed tuple, None in a fixed list, more streams than N on a variable list, too many on a fixed list = refusal); '
         'StreamPorts.from_inlets/from_outlets item and slice assignment and In/OutletPort.set_stream; StreamSequence.reverse; temporary_connection (temporary units are part of the checked graph); '
         'every real stream ever seen in a port stays under observation after it is evicted; the exhaustive alphabet also holds slice/replace/extend/pipe/streams-unit/insert at i>0/set at i==len/'
-        'negative index/partial disconnect/explicit insert/construct/ports/temp-conn/reverse shapes over a 2-stream + 2-port-reference sub-universe')
+        'negative index/partial disconnect/explicit insert/construct/ports/temp-conn/reverse shapes over a 2-stream + 2-port-reference sub-universe. '
+        'Oracles: fixed size / port count are judged (and the preconditions filtered) against the (nin, nout, fin, fout) the harness asked for at construction, kept per unit identity '
+        '(temporary units: their documented shapes), never against the flags of the list under test; the public sink/source must say what the slots say; the operations that return '
+        'nothing are judged against a snapshot (identities, in order) taken before the call: take_place_of / replace_with (the receiving unit lists the replaced unit\'s real streams at '
+        'the same positions and no others, the replaced unit lists placeholders only), replace_with() (the unit is empty, each real inlet/outlet pair is bridged at the neighbour\'s port), '
+        'unit-unit (inlets of the downstream unit are the outlets of the upstream unit, which keeps them), reverse (same objects, reversed order), temporary_connection (first outlet -> '
+        'temporary source, temporary sink -> first inlet, a stream between the two, former sink fed at the same port); get_connection records are compared with the live lists when taken, '
+        'reconnect is counted only when called and must put the stream at the recorded ports; StreamPorts targets (unit, index) are located by the harness before the call and judged on the '
+        'unit\'s own list; a refusal is granted only when the harness sees its cause on the inputs (otherwise .../refused-although-*), a call accepted where the refusal is documented is '
+        '.../accepted-where-documented-refusal (unit.insert, StreamPorts), and the graph a refused call leaves behind is judged (.../refused/<reason>/left-inconsistent-graph)')
 MIN_NONTRIVIAL = {'quick': 1000, 'thorough': 100000}
 ASSUMPTIONS = ['operations are used within the preconditions listed in the property (checked by the harness on the live state before each call)',
                'AbstractUnit subclasses with no _run are sufficient: only the connection graph is exercised',
@@ -32,7 +41,11 @@ ASSUMPTIONS = ['operations are used within the preconditions listed in the prope
                'a placeholder object has no pipe operators: `placeholder - unit` is answered by the documented ValueError (counted as a refusal), `unit - placeholder` and placeholders inside '
                'construction lists are not generated; `ndarray - unit` is applied by numpy element by element (each element replaces the inlet list), so only the graph invariant is judged there',
                'calls answered by a documented error (ValueError of unit.insert / unit.disconnect(join_ends) / StreamPorts.from_*, IndexError of a StreamPorts slice of another length, RuntimeError '
-               'of a construction with more streams than a fixed list holds) are counted as refusals; the graph they leave is not judged',
+               'of a construction with more streams than a fixed list holds) are counted as refusals only when the harness sees the documented cause on the inputs; the raise is not judged, '
+               'the graph the refused call leaves behind is (it must satisfy the invariant: the quick and 10x baselines leave none inconsistent)',
+               'take_place_of / replace_with / unit-unit / reverse / temporary_connection / replace_with() are judged against their documented effect (see RULE) in addition to the invariant, '
+               'so that a call that does nothing is not counted as an effective rewiring; temporary_connection on one stream that is both the first outlet and the first inlet is judged by the invariant only',
+               'Connection.reconnect is called only for records that can be replayed within precondition (b) on the live state; the others are skipped (counter reconnect:skipped), not counted as operations',
                'temporary_connection is called on units whose first outlet / first inlet hold real streams (its use in process specifications)']
 
 
@@ -58,7 +71,12 @@ def required(tier):
             # construction forms
             'construct:single', 'construct:str', 'construct:strs', 'construct:auto', 'construct:mixed', 'construct:over-variable', 'construct:none-in-fixed',
             # system ports, temporary connection
-            'op:ports', 'ports:item', 'ports:slice', 'ports:set_stream', 'op:temp-conn', 'temp-conn:units-checked']
+            'op:ports', 'ports:item', 'ports:slice', 'ports:set_stream', 'op:temp-conn', 'temp-conn:units-checked',
+            # postconditions of the operations that return nothing (judged against a snapshot taken before the call), records checked against the live lists
+            'post:take_place_of:real-moved', 'post:replace_with:real-moved', 'post:replace_with_none:bridged-outs', 'post:replace_with_none:bridged-ins', 'post:unit-unit:real-piped',
+            'post:reverse:real-moved', 'post:temp-conn:both-ends', 'post:record:index-checked', 'post:reconnect:port-checked', 'post:ports:judged-on-unit-list',
+            # refusals: seen due by the harness on the inputs, graph judged afterwards
+            'refused:graph-judged', 'refused:ports', 'refused:unit.insert', 'refused:unit.disconnect', 'refused:construct', 'refused:streams-unit']
 
 
 _classes = {}
@@ -78,6 +96,9 @@ class Universe:
     def __init__(self, configs, nstreams):
         self.units = [unit_class(*c)(None) for c in configs]
         for k, u in enumerate(self.units): u._ID = f'u{k}'
+        # the port counts / fixed flags the harness ASKED for (nin, nout, fin, fout), by unit identity: the reference for 'fixed-size lists keep their size' and for the
+        # preconditions (never read back from the list object under test)
+        self.spec = {id(u): tuple(c) for u, c in zip(self.units, configs)}
         self.streams = []
         for k in range(nstreams):
             s = AbstractStream(None); s._ID = f's{k}'
@@ -88,6 +109,7 @@ class Universe:
         self.ever = []             # every real stream ever observed in a port (and the universe streams), in order of first observation
         self._ever_ids = set()
         self.evicted_auto = False  # an observed stream that is not one of the universe streams is no longer in any port
+        self.notes = []            # reach counters of the postcondition branches the last executed operation was judged in (flushed by run_sequence)
         for s in self.streams: self.remember(s)
 
     def remember(self, s):
@@ -97,6 +119,30 @@ class Universe:
     def seq(self, u, side):
         unit = self.units[u]
         return unit.ins if side == 'in' else unit.outs
+
+    def note(self, name): self.notes.append(name)
+
+    def add_unit(self, unit, cfg):
+        self.units.append(unit); self.spec[id(unit)] = tuple(cfg)
+
+    def add_temp(self, tu):
+        self.temps.append(tu); self.spec[id(tu)] = TEMP_SPEC[type(tu).__name__]
+
+    def spec_of(self, unit):
+        """(nin, nout, fin, fout) of a unit of the universe (also of a temporary unit), from the harness table."""
+        return self.spec[id(unit)]
+
+    def fixed_of(self, unit, side):
+        sp = self.spec[id(unit)]
+        return sp[2] if side in ('in', 'ins') else sp[3]
+
+    def size_of(self, unit, side):
+        sp = self.spec[id(unit)]
+        return sp[0] if side in ('in', 'ins') else sp[1]
+
+    def fixed(self, u, side): return self.fixed_of(self.units[u], side)
+
+    def size(self, u, side): return self.size_of(self.units[u], side)
 
     def attr(self, side):
         return '_sink' if side == 'in' else '_source'
@@ -115,6 +161,10 @@ class Universe:
         return (unit - ref[3]) if ref[2] == 'out' else (ref[3] - unit)
 
 
+# temporary units are made by the library (temporary_connection); their documented shapes: TemporarySource 1 fixed inlet -> variable outlets, TemporarySink variable inlets -> 1 fixed outlet
+TEMP_SPEC = {'TemporarySource': (1, 2, True, False), 'TemporarySink': (2, 1, False, True)}
+
+
 def is_real(s): return isinstance(s, AbstractStream)
 
 
@@ -130,7 +180,10 @@ def check(U):
     errs = []
     units = list(U.units) + list(getattr(U, 'temps', ()))
     found = []
+    spec = getattr(U, 'spec', None)
     for u in units:
+        sp = spec.get(id(u)) if spec is not None else None
+        if spec is not None and sp is None: errs.append(f'{u.ID} is not in the table of port counts of the harness')
         for side, seq, attr, other in (('ins', u.ins, '_sink', '_source'), ('outs', u.outs, '_source', '_sink')):
             items = list(seq)
             real = [s for s in items if is_real(s)]
@@ -138,12 +191,20 @@ def check(U):
             if len(set(map(id, real))) != len(real): errs.append(f'{u.ID}.{side} lists a stream twice')
             for s in real:
                 if getattr(s, attr) is not u: errs.append(f'{u.ID}.{side} lists {nm(s)} but its {attr[1:]} is {getattr(getattr(s, attr), "ID", None)}')
-            if seq._fixed_size and len(items) != seq._size: errs.append(f'{u.ID}.{side} fixed size {seq._size} but holds {len(items)}')
+                # the statement names the public sink / source: they must say what the slots say
+                if getattr(s, attr[1:]) is not u: errs.append(f'{u.ID}.{side} lists {nm(s)} but its public {attr[1:]} is {getattr(getattr(s, attr[1:]), "ID", None)}')
+            if sp is not None:
+                # fixed size and port count as the harness asked for them at construction (not the flags of the list object under test)
+                fixed, size = (sp[2], sp[0]) if side == 'ins' else (sp[3], sp[1])
+                if fixed and len(items) != size: errs.append(f'{u.ID}.{side} fixed size {size} but holds {len(items)}')
+                if fixed and len(seq) != size: errs.append(f'{u.ID}.{side} fixed size {size} but reports len {len(seq)}')
+            elif seq._fixed_size and len(items) != seq._size: errs.append(f'{u.ID}.{side} fixed size {seq._size} but holds {len(items)}')
             for s in items:
                 if not is_real(s):
                     if not isinstance(s, AbstractMissingStream): errs.append(f'{u.ID}.{side} holds a {type(s).__name__}')
                     elif bool(s): errs.append(f'{u.ID}.{side} placeholder is truthy')
                     elif getattr(s, attr) is not u: errs.append(f'{u.ID}.{side} placeholder points at {getattr(getattr(s, attr), "ID", None)}')
+                    elif getattr(s, attr[1:]) is not u: errs.append(f'{u.ID}.{side} placeholder: public {attr[1:]} is {getattr(getattr(s, attr[1:]), "ID", None)}')
     if hasattr(U, 'remember'):
         # streams once seen in a port (auto-created outlets, streams made from IDs, streams of temporary connections) stay observed after eviction
         for s in found: U.remember(s)
@@ -155,6 +216,7 @@ def check(U):
         for s in list(U.streams) + found:
             if id(s) not in seen_ids: seen_ids.add(id(s)); everything.append(s)
     for s in everything:
+        if s.sink is not s._sink or s.source is not s._source: errs.append(f'{nm(s)}: public sink/source differ from the slots')
         if s._sink is not None and not any(x is s for x in s._sink.ins): errs.append(f'{nm(s)} has sink {s._sink.ID} but is not among its inlets')
         if s._source is not None and not any(x is s for x in s._source.outs): errs.append(f'{nm(s)} has source {s._source.ID} but is not among its outlets')
         if s._sink is not None and s._source is not None: U.seen_double = True
@@ -180,8 +242,36 @@ REF_KEYS_N = ('ss', 'ins', 'outs', 'of')
 
 
 class Refused:
-    """the library answered the call with a documented error: counted, not judged."""
+    """the library answered the call with a documented error AND the harness itself saw on the inputs that this error is due: counted; the graph left behind is judged."""
+    def __init__(self, reason, slug): self.reason = reason; self.slug = slug
+
+
+class Err(str):
+    """a postcondition error that carries its own key suffix (mechanism), e.g. 'accepted-where-documented-refusal'."""
+    suffix = ''
+    def __new__(cls, msg, suffix=''):
+        e = str.__new__(cls, msg); e.suffix = suffix
+        return e
+
+
+class Skip:
+    """the operation was not called (its precondition on the live state could only be seen inside execute): not counted as effective."""
     def __init__(self, reason): self.reason = reason
+
+
+def took_over(U, dst, src, former, what):
+    """dst.<side>[:] = src.<side> (take_place_of / replace_with): every real stream `src` listed is now listed by `dst` at the same position, `dst` lists no other real
+    stream, `src` lists placeholders only.  `former` = {'ins': [...], 'outs': [...]} of src, taken (by identity, in order) before the call."""
+    for side in ('ins', 'outs'):
+        now = list(getattr(dst, side)); was = former[side]
+        if len(now) < len(was): return f'{what}: the {side} of the receiving unit hold {len(now)} items, the list taken over held {len(was)}'
+        for j, x in enumerate(was):
+            if is_real(x):
+                if now[j] is not x: return f'{what}: {side}[{j}] of the receiving unit is not the stream {nm(x)} the replaced unit held there'
+            elif is_real(now[j]): return f'{what}: {side}[{j}] of the receiving unit holds a real stream where the replaced unit held a placeholder'
+        if any(is_real(y) for y in now[len(was):]): return f'{what}: the receiving unit kept real streams of its own beyond the list taken over ({side})'
+        if any(is_real(y) for y in getattr(src, side)): return f'{what}: the replaced unit still lists real streams ({side})'
+    return None
 
 
 def pre(U, op):
@@ -224,6 +314,7 @@ def insert_plan(U, op):
     u = U.units[op['u']]; s = U.resolve(op['s'])
     if s is None or not is_real(s) or not s.source or not s.sink or s.source is u or s.sink is u: return None
     src, snk = s.source, s.sink
+    nin, nout, fin, fout = U.spec_of(u)
     kw = {}; expect = None; X = I = None; added_unit = False
     # --- outlet
     if op.get('foreign_out') is not None:
@@ -237,8 +328,8 @@ def insert_plan(U, op):
         X = u.outs[j]
         kw['outlet'] = X if (op.get('obj_out') and is_real(X)) else j
     else:
-        if u._outs_size_is_fixed:
-            if u._N_outs != 1: return kw, 'undefined outlet', None, None, False
+        if fout:
+            if nout != 1: return kw, 'undefined outlet', None, None, False
             if len(u.outs) < 1: return None
             X = u.outs[0]
         else:
@@ -257,8 +348,8 @@ def insert_plan(U, op):
         I = u.ins[j]
         kw['inlet'] = I if (op.get('obj_in') and is_real(I)) else j
     else:
-        if u._ins_size_is_fixed or added_unit:
-            if u._N_ins != 1: expect = 'undefined inlet'
+        if fin or added_unit:
+            if nin != 1: expect = 'undefined inlet'
             else:
                 if len(u.ins) < 1: return None
                 I = u.ins[0]
@@ -315,6 +406,25 @@ def port_target(port, side):
     return (port.sink.ins, port.index) if side == 'in' else (port.source.outs, port.index)
 
 
+def ports_plan(U, op):
+    """the (unit, index) each stream of `of` is docked at on the given side, located by the harness on the live port lists (identity), in the order StreamPorts documents
+    (as given, or sorted by unit ID and index).  ('undocked', None) when a stream has no unit on that side: the library's documented ValueError is then due;
+    ('outside', None) when a stream names a unit that does not list it (placeholders that were moved): not generated."""
+    side = op['side']; attr = '_sink' if side == 'in' else '_source'
+    of = [U.resolve(r) for r in op['of']]
+    if any(getattr(x, attr) is None for x in of): return 'undocked', None
+    targets = []
+    for x in of:
+        unit = getattr(x, attr)
+        pos = [k for k, y in enumerate(unit.ins if side == 'in' else unit.outs) if y is x]
+        if len(pos) != 1: return 'outside', None
+        targets.append((unit, pos[0]))
+    if op.get('sort'):
+        if side == 'in': targets.sort(key=lambda t: (t[0].ID[1:], t[0].ID, t[1]))
+        else: targets.sort(key=lambda t: (t[0].ID[1:], t[0].ID[0], t[1]))
+    return 'ok', targets
+
+
 def construct_args(U, op):
     """the ins / outs arguments of a construction in the requested call form, and the given stream objects that must end up listed."""
     form = op.get('form') or 'list'
@@ -341,7 +451,7 @@ def _pre(U, op):
     if o == 'set':
         seq = U.seq(op['u'], op['side']); s = U.resolve(op['s'])
         if op['i'] < 0 and not in_range(op['i'], len(seq)): return False
-        if op['i'] > len(seq) or (op['i'] == len(seq) and seq._fixed_size): return False
+        if op['i'] > len(seq) or (op['i'] == len(seq) and U.fixed(op['u'], op['side'])): return False
         if s is not None and any(x is s for x in seq): return False
         if s is not None and not is_streamlike(s): return False
         return True
@@ -354,14 +464,14 @@ def _pre(U, op):
         if plan is None: return False
         removed, extended = plan
         if extended and len(ss) != removed: return False      # Python's own rule for extended slices
-        if seq._fixed_size and len(seq) - removed + len(ss) > seq._size: return False
+        if U.fixed(op['u'], op['side']) and len(seq) - removed + len(ss) > U.size(op['u'], op['side']): return False
         return True
     if o in ('append', 'insert'):
         seq = U.seq(op['u'], op['side']); s = U.resolve(op['s'])
-        return (not seq._fixed_size) and s is not None and is_streamlike(s) and not docked(s, op['side']) and (o == 'append' or in_range(op['i'], len(seq), 1))
+        return (not U.fixed(op['u'], op['side'])) and s is not None and is_streamlike(s) and not docked(s, op['side']) and (o == 'append' or in_range(op['i'], len(seq), 1))
     if o == 'extend':
         seq = U.seq(op['u'], op['side']); ss = [U.resolve(r) for r in op['ss']]
-        return (not seq._fixed_size) and all(s is not None and is_streamlike(s) and not docked(s, op['side']) for s in ss) and len(set(map(id, ss))) == len(ss)
+        return (not U.fixed(op['u'], op['side'])) and all(s is not None and is_streamlike(s) and not docked(s, op['side']) for s in ss) and len(set(map(id, ss))) == len(ss)
     if o == 'pop':
         return in_range(op['i'], len(U.seq(op['u'], op['side'])))
     if o == 'remove':
@@ -394,18 +504,19 @@ def _pre(U, op):
             if (is_real(x) and x.sink is not None) or any(y is x for y in s.sink.ins): return False
             if i is x: return False
             return True
-        if (u._N_ins == 1 and len(u.ins) < 1) or (u._N_outs == 1 and u._outs_size_is_fixed and len(u.outs) < 1): return False
-        if u._outs_size_is_fixed:
-            if u._N_outs != 1: return False
+        nin, nout, fin, fout = U.spec_of(u)
+        if (nin == 1 and len(u.ins) < 1) or (nout == 1 and fout and len(u.outs) < 1): return False
+        if fout:
+            if nout != 1: return False
             x = u.outs[0]
             if (is_real(x) and x.sink is not None) or any(y is x for y in s.sink.ins): return False
-            if u._ins_size_is_fixed:
-                if u._N_ins != 1: return False
+            if fin:
+                if nin != 1: return False
                 i = u.ins[0]
                 if (is_real(i) and i.source is not None) or any(y is i for y in s.source.outs): return False
             return True
         else:
-            if u._N_ins != 1: return False
+            if nin != 1: return False
             i = u.ins[0]
             if (is_real(i) and i.source is not None) or any(y is i for y in s.source.outs): return False
             return True
@@ -415,7 +526,7 @@ def _pre(U, op):
         dst, src = (a, b) if o == 'take_place_of' else (b, a)
         for side in ('ins', 'outs'):
             d, s = getattr(dst, side), getattr(src, side)
-            if d._fixed_size and len(s) > d._size: return False
+            if U.fixed_of(dst, side) and len(s) > U.size_of(dst, side): return False
             if any(is_real(x) and any(y is x for y in d) for x in s): return False
         return True
     if o == 'replace_with_none':
@@ -441,11 +552,11 @@ def _pre(U, op):
         seq = U.seq(op['u'], side); s = U.resolve(op['s'])
         if s is None or not is_real(s) or any(x is s for x in seq): return False      # a placeholder has no pipe operators
         if op['i'] < 0: return in_range(op['i'], len(seq))
-        return op['i'] < len(seq) or (op['i'] == len(seq) and not seq._fixed_size)
+        return op['i'] < len(seq) or (op['i'] == len(seq) and not U.fixed(op['u'], side))
     if o == 'unit-unit':
         a, b = U.units[op['u']], U.units[op['v']]
         if a is b: return False
-        if b.ins._fixed_size and len(a.outs) > b.ins._size: return False
+        if U.fixed_of(b, 'in') and len(a.outs) > U.size_of(b, 'in'): return False
         return not any(is_real(x) and any(y is x for y in b.ins) for x in a.outs)
     if o == 'streams-unit':
         u = U.units[op['u']]; ss = [U.resolve(r) for r in op['ss']]
@@ -457,7 +568,7 @@ def _pre(U, op):
             if len(ss) != 1: return False
             if is_ph(ss[0]) and side == 'out': return False       # unit - <placeholder> is not a pipe form (the placeholder has no reflected operator)
         if form == 'ndarray' and side == 'in' and not all(is_real(s) for s in ss): return False     # numpy applies the bare form element by element
-        if seq._fixed_size and len(ss) > seq._size: return False
+        if U.fixed(op['u'], side) and len(ss) > U.size(op['u'], side): return False
         return not any(any(y is x for y in seq) for x in ss)
     if o == 'construct':
         ins = [U.resolve(r) for r in op['ins']]; outs = [U.resolve(r) for r in op['outs']]
@@ -487,17 +598,18 @@ def _pre(U, op):
         given = [x for x in ss if x is not None]
         if not all(is_streamlike(x) for x in given) or len(set(map(id, given))) != len(given): return False
         if len(given) != len([r for r in op['ss'] if r is not None]): return False
-        try: ports = build_ports(U, op)
-        except ValueError: return True          # a stream that is not docked on that side: documented ValueError, exercised as a refusal
-        P = ports._ports; n = len(P)
+        kind, P = ports_plan(U, op)
+        if kind == 'outside': return False
+        if kind == 'undocked': return True       # a stream that is not docked on that side: documented ValueError, exercised as a refusal
+        n = len(P)
         if op['mode'] == 'slice':
             sel = P[slice(op['a'], op['b'])]
             if len(sel) != len(ss): return True  # documented IndexError, exercised as a refusal
         else:
             if len(ss) != 1 or not in_range(op['k'], n): return False
             sel = [P[op['k']]]
-        for port, s in zip(sel, ss):
-            lst, idx = port_target(port, op['side'])
+        for (unit, idx), s in zip(sel, ss):
+            lst = unit.ins if op['side'] == 'in' else unit.outs
             if s is not None and any(y is s for y in lst): return False
         return True
     if o == 'temp-conn':
@@ -539,8 +651,9 @@ def execute(U, op):
         got = seq.pop(op['i'])
         if got is not expect: return 'pop returned another stream'
         if any(x is got for x in seq) and is_real(got): return 'popped stream still listed'
-        if seq._fixed_size and len(seq) != n: return 'fixed-size list changed length on pop'
-        if not seq._fixed_size and len(seq) != n - 1: return 'variable-size list did not shrink on pop'
+        fixed = U.fixed(op['u'], op['side'])
+        if fixed and len(seq) != n: return 'fixed-size list changed length on pop'
+        if not fixed and len(seq) != n - 1: return 'variable-size list did not shrink on pop'
         return None
     if o == 'remove':
         seq = U.seq(op['u'], op['side']); s = seq[op['i']]
@@ -559,8 +672,13 @@ def execute(U, op):
         seq = U.seq(op['u'], op['side']); seq.empty()
         return 'empty left real streams' if any(is_real(x) for x in seq) else None
     if o == 'reverse':
-        seq = U.seq(op['u'], op['side'])
+        seq = U.seq(op['u'], op['side']); was = list(seq)
         seq.reverse()
+        now = list(seq)
+        if len(now) != len(was): return 'reverse changed the number of ports'
+        if any(is_real(x) and x is not y for x, y in zip(was, reversed(was))): U.note('post:reverse:real-moved')
+        for x, y in zip(reversed(was), now):
+            if (is_real(x) or is_real(y)) and x is not y: return 'reverse: the streams are not in the reversed order'
         return None
     if o in ('disconnect_source', 'disconnect_sink', 'disconnect'):
         s = U.resolve(op['s'])
@@ -577,7 +695,7 @@ def execute(U, op):
         try:
             u.disconnect(**kw)
         except ValueError as e:
-            if expect and expect in str(e): return Refused('unit.disconnect(join_ends=True) with unequal numbers of inlets and outlets: ValueError')
+            if expect and expect in str(e): return Refused('unit.disconnect(join_ends=True) with unequal numbers of inlets and outlets: ValueError', 'unequal-ends')
             raise
         if op.get('inlets') is not None:
             for x in chosen['inlets']:
@@ -614,9 +732,9 @@ def execute(U, op):
         try:
             u.insert(s, **kw)
         except ValueError as e:
-            if expect and expect in str(e): return Refused('unit.insert: ' + expect + ': ValueError')
+            if expect and expect in str(e): return Refused('unit.insert: ' + expect + ': ValueError', expect.replace(' ', '-'))
             raise
-        if expect: return None
+        if expect: return Err(f'unit.insert accepted a call that its documentation answers with ValueError ({expect})', 'accepted-where-documented-refusal')
         if not any(x.source is src for x in u.ins): return 'after insert no inlet of the unit comes from the old source'
         if not any(x.sink is snk for x in u.outs): return 'after insert no outlet of the unit goes to the old sink'
         return None
@@ -629,30 +747,71 @@ def execute(U, op):
         if not any(x.source is src for x in u.ins): return 'after insert no inlet of the unit comes from the old source'
         if not any(x.sink is snk for x in u.outs): return 'after insert no outlet of the unit goes to the old sink'
         return None
-    if o == 'take_place_of':
-        U.units[op['u']].take_place_of(U.units[op['v']]); return None
-    if o == 'replace_with':
-        U.units[op['u']].replace_with(U.units[op['v']]); return None
+    if o in ('take_place_of', 'replace_with'):
+        a, b = U.units[op['u']], U.units[op['v']]
+        dst, src = (a, b) if o == 'take_place_of' else (b, a)
+        former = {'ins': list(src.ins), 'outs': list(src.outs)}
+        if o == 'take_place_of': a.take_place_of(b)
+        else: a.replace_with(b)
+        if any(is_real(x) for x in former['ins'] + former['outs']): U.note(f'post:{o}:real-moved')
+        return took_over(U, dst, src, former, o)
     if o == 'replace_with_none':
-        U.units[op['u']].replace_with(); return None
+        u = U.units[op['u']]
+        # the plan, from the state before the call: pair k bridges inlet k and outlet k of the unit
+        plan = []
+        for i, x in zip(tuple(u.ins), tuple(u.outs)):
+            if not (is_real(i) and is_real(x)): continue
+            S = i._source
+            if S is not None and S is not u:
+                plan.append(('outs', S, [k for k, y in enumerate(S.outs) if y is i], x, i))
+            elif S is None and x._sink is not None and x._sink is not u:
+                K = x._sink
+                plan.append(('ins', K, [k for k, y in enumerate(K.ins) if y is x], i, x))
+        u.replace_with()
+        if any(is_real(y) for y in u.ins) or any(is_real(y) for y in u.outs): return 'replace_with(): the removed unit still lists real streams'
+        for side, W, pos, keep, gone in plan:
+            if len(pos) != 1: continue
+            U.note('post:replace_with_none:bridged-' + side)
+            lst = list(getattr(W, side))
+            if pos[0] >= len(lst) or lst[pos[0]] is not keep:
+                return f'replace_with(): {W.ID}.{side}[{pos[0]}] does not hold the stream {nm(keep)} that bridges the removed unit'
+            if any(y is gone for y in lst): return f'replace_with(): {W.ID}.{side} still lists the bridged-over stream {nm(gone)}'
+        return None
     if o == 'record':
-        U.connections.append(U.resolve(op['s']).get_connection()); return None
+        s = U.resolve(op['s'])
+        c = s.get_connection()
+        U.connections.append(c)
+        # the record against the live lists (auxiliary streams, the only documented source of index -1, do not exist in this universe)
+        if c.stream is not s: return 'get_connection: the record names another stream'
+        if c.source is not s._source or c.sink is not s._sink: return 'get_connection: the record names another source / sink than the stream has'
+        for unit, idx, side in ((c.source, c.source_index, 'outs'), (c.sink, c.sink_index, 'ins')):
+            if unit is None:
+                if idx is not None: return f'get_connection: an index into {side} without a unit'
+                continue
+            if not isinstance(idx, int) or isinstance(idx, bool): return f'get_connection: the index into {side} of {unit.ID} is {idx!r}'
+            lst = list(getattr(unit, side))
+            if not (0 <= idx < len(lst)) or lst[idx] is not s: return f'get_connection: {unit.ID}.{side}[{idx}] is not the recorded stream'
+            U.note('post:record:index-checked')
+        return None
     if o == 'reconnect':
         c = U.connections[op['k']]
-        # precondition (b) for the two assignments reconnect performs
+        # precondition (b) for the two assignments reconnect performs; a record that cannot be replayed on the live state is SKIPPED (not an effective operation)
         if c.source and c.source_index is not None and c.source_index >= 0:
-            if c.source_index >= len(c.source.outs) and c.source.outs._fixed_size: return None
-            if any(x is c.stream for j, x in enumerate(c.source.outs) if j != c.source_index): return None
+            if c.source_index >= len(c.source.outs) and U.fixed_of(c.source, 'out'): return Skip('index beyond a fixed-size list')
+            if any(x is c.stream for j, x in enumerate(c.source.outs) if j != c.source_index): return Skip('stream at another port of the same list')
         if c.sink and c.sink_index is not None and c.sink_index >= 0:
-            if c.sink_index >= len(c.sink.ins) and c.sink.ins._fixed_size: return None
-            if any(x is c.stream for j, x in enumerate(c.sink.ins) if j != c.sink_index): return None
-        if (c.source and (c.source_index is None or c.source_index < 0)) or (c.sink and (c.sink_index is None or c.sink_index < 0)): return None
-        if c.source and c.source_index > len(c.source.outs): return None
-        if c.sink and c.sink_index > len(c.sink.ins): return None
-        if c.source and c.source_index < len(c.source.outs) and c.source.outs[c.source_index] is c.stream: pass
+            if c.sink_index >= len(c.sink.ins) and U.fixed_of(c.sink, 'in'): return Skip('index beyond a fixed-size list')
+            if any(x is c.stream for j, x in enumerate(c.sink.ins) if j != c.sink_index): return Skip('stream at another port of the same list')
+        if (c.source and (c.source_index is None or c.source_index < 0)) or (c.sink and (c.sink_index is None or c.sink_index < 0)):
+            return Skip('record without a port index')        # cannot be reached through a record that passed the check at 'record'
+        if c.source and c.source_index > len(c.source.outs): return Skip('index beyond the end of a variable list')
+        if c.sink and c.sink_index > len(c.sink.ins): return Skip('index beyond the end of a variable list')
         c.reconnect()
         s = c.stream
         if s.source is not c.source or s.sink is not c.sink: return 'reconnect did not restore source/sink'
+        if c.source is not None and not (c.source_index < len(c.source.outs) and c.source.outs[c.source_index] is s): return 'reconnect: the stream is not at the recorded outlet port'
+        if c.sink is not None and not (c.sink_index < len(c.sink.ins) and c.sink.ins[c.sink_index] is s): return 'reconnect: the stream is not at the recorded inlet port'
+        if c.source is not None or c.sink is not None: U.note('post:reconnect:port-checked')
         return None
     if o == 'pipe-in':
         u = U.units[op['u']]; s = s0 = U.resolve(op['s']); i = op['i']
@@ -674,8 +833,20 @@ def execute(U, op):
         return None if u.outs[op['i']] is s0 else 'outlet pipe did not connect'
     if o == 'unit-unit':
         a, b = U.units[op['u']], U.units[op['v']]
-        if op.get('pow'): a ** b
-        else: a - b
+        was = list(a.outs)
+        if op.get('pow'): r = a ** b
+        else: r = a - b
+        if r is not b: return 'unit - unit did not return the downstream unit'
+        now = list(b.ins); kept = list(a.outs)
+        if len(now) < len(was): return f'unit - unit: the downstream unit holds {len(now)} inlets, the upstream unit has {len(was)} outlets'
+        if len(kept) != len(was): return 'unit - unit changed the number of outlets of the upstream unit'
+        for j, x in enumerate(was):
+            if is_real(x):
+                if now[j] is not x: return f'unit - unit: inlet {j} of the downstream unit is not outlet {j} of the upstream unit'
+                if kept[j] is not x: return f'unit - unit: outlet {j} of the upstream unit changed'
+            elif is_real(now[j]): return f'unit - unit: inlet {j} of the downstream unit holds a real stream where the upstream unit has a placeholder'
+        if any(is_real(y) for y in now[len(was):]): return 'unit - unit: the downstream unit kept real inlets of its own beyond the piped ones'
+        if any(is_real(x) for x in was): U.note('post:unit-unit:real-piped')
         return None
     if o == 'streams-unit':
         u = U.units[op['u']]; ss = [U.resolve(r) for r in op['ss']]
@@ -685,7 +856,7 @@ def execute(U, op):
                 if op['side'] == 'in': ss[0] - u
                 else: u - ss[0]
             except ValueError as e:
-                if is_ph(ss[0]) and 'cannot pipe' in str(e): return Refused('streams-unit: <placeholder> - unit: ValueError cannot pipe')
+                if is_ph(ss[0]) and 'cannot pipe' in str(e): return Refused('streams-unit: <placeholder> - unit: ValueError cannot pipe', 'placeholder-has-no-pipe')
                 raise
         elif form == 'list':
             if op['side'] == 'in': list(ss) - u
@@ -713,10 +884,10 @@ def execute(U, op):
             try:
                 u = cls(None, ins=iarg, outs=oarg)
             except RuntimeError as e:
-                if too_many and 'size exceeds' in str(e): return Refused('construct: more streams than a fixed-size list holds: RuntimeError')
+                if too_many and 'size exceeds' in str(e): return Refused('construct: more streams than a fixed-size list holds: RuntimeError', 'size-exceeds')
                 raise
         u._ID = f'u{len(U.units)}'
-        U.units.append(u)
+        U.add_unit(u, op['cfg'])
         for s in [x for x in ins if x is not None]:
             if not any(y is s for y in u.ins): return 'constructed unit does not list a given inlet'
         for s in [x for x in outs if x is not None]:
@@ -724,34 +895,73 @@ def execute(U, op):
         return None
     if o == 'ports':
         side = op['side']; ss = [U.resolve(r) for r in op['ss']]
+        kind, targets = ports_plan(U, op)          # what the harness sees on the inputs, before the call
         try:
             ports = build_ports(U, op)
         except ValueError as e:
-            if 'to any unit' in str(e): return Refused(f'StreamPorts.from_{side}lets: stream not docked on that side: ValueError')
+            if 'to any unit' in str(e):
+                if kind == 'undocked': return Refused(f'StreamPorts.from_{side}lets: stream not docked on that side: ValueError', 'not-docked')
+                return Err(f'StreamPorts.from_{side}lets refused streams that are all docked on that side: {e}', 'refused-although-docked')
             raise
+        if kind == 'undocked':
+            return Err(f'StreamPorts.from_{side}lets accepted a stream that is not docked on that side (documented ValueError)', 'accepted-where-documented-refusal')
+        if len(ports) != len(targets): return 'StreamPorts holds another number of ports than streams given'
         if op['mode'] == 'slice':
+            sel = targets[slice(op['a'], op['b'])]
             try:
                 ports[op['a']:op['b']] = ss
             except IndexError as e:
-                if 'must match the size of slice' in str(e): return Refused('StreamPorts slice assignment of another length: IndexError')
+                if 'must match the size of slice' in str(e):
+                    if len(sel) != len(ss): return Refused('StreamPorts slice assignment of another length: IndexError', 'slice-length')
+                    return Err(f'StreamPorts slice assignment refused {len(ss)} streams for a slice of {len(sel)} ports: {e}', 'refused-although-length-matches')
                 raise
-            sel = ports._ports[slice(op['a'], op['b'])]
+            if len(sel) != len(ss): return Err('StreamPorts slice assignment accepted a list of another length (documented IndexError)', 'accepted-where-documented-refusal')
         else:
+            sel = [targets[op['k']]]
             port = ports._ports[op['k']]
             if op['mode'] == 'direct': port.set_stream(ss[0], 2)
             else: ports[op['k']] = ss[0]
-            sel = [port]
-        for port, s in zip(sel, ss):
-            if s is not None and port.get_stream() is not s: return 'stream assigned through a port is not at that port'
-            if s is None and bool(port.get_stream()): return 'assigning None through a port did not leave a placeholder'
+        # judged on the unit's own port list at the (unit, index) the harness located before the call, not through the port object
+        for (unit, idx), s in zip(sel, ss):
+            lst = unit.ins if side == 'in' else unit.outs
+            if idx >= len(lst): return 'the port the stream was docked at is gone'
+            if s is not None and lst[idx] is not s: return 'stream assigned through a port is not at that port'
+            if s is None and bool(lst[idx]): return 'assigning None through a port did not leave a placeholder'
+            U.note('post:ports:judged-on-unit-list')
         return None
     if o == 'temp-conn':
         a, b = U.units[op['u']], U.units[op['v']]
         n0 = len(_net.temporary_units_dump)
+        up, down = a.outs[0], b.ins[0]
+        up_sink, down_source = up._sink, down._source
+        up_pos = [k for k, y in enumerate(up_sink.ins) if y is up] if up_sink is not None else []
         temporary_connection(a, b)
         for tu in _net.temporary_units_dump[n0:]:
             tu.ID = tu._ID = f'TU{len(U.temps)}'      # the library numbers them with a process-wide counter: renamed so that a case replays alike in isolation
-            U.temps.append(tu)
+            U.add_temp(tu)
+        if up is down: U.note('temp-conn:one-stream-is-both-ends'); return None                    # one stream is both ends: the two temporary units are chained through it, only the graph invariant is judged
+        # the upstream end: outlet 0 of `a` is untouched and now feeds a temporary source; whatever it fed before is fed by that temporary source
+        if a.outs[0] is not up or up._source is not a: return 'temporary_connection changed the first outlet of the upstream unit'
+        ts = up._sink
+        if type(ts).__name__ != 'TemporarySource' or not any(t is ts for t in U.temps): return 'temporary_connection: the first outlet of the upstream unit does not feed a temporary source'
+        if type(up_sink).__name__ == 'TemporarySource':
+            if ts is not up_sink: return 'temporary_connection replaced the temporary source that was already in the line'
+        else:
+            if not any(t is ts for t in _net.temporary_units_dump[n0:]): return 'temporary_connection: the temporary source is not a new unit'
+            if up_sink is not None and len(up_pos) == 1:
+                y = up_sink.ins[up_pos[0]] if up_pos[0] < len(up_sink.ins) else None
+                if not is_real(y) or y._source is not ts: return 'temporary_connection: the former sink of the upstream stream is not fed by the temporary source at the same port'
+        # the downstream end: inlet 0 of `b` comes from a temporary sink that receives the former inlet
+        d = b.ins[0]
+        tk = d._source if is_streamlike(d) else None
+        if not is_real(d) or type(tk).__name__ != 'TemporarySink' or not any(t is tk for t in U.temps): return 'temporary_connection: the first inlet of the downstream unit does not come from a temporary sink'
+        if type(down_source).__name__ == 'TemporarySink':
+            if d is not down or tk is not down_source: return 'temporary_connection replaced the temporary sink that was already in the line'
+        else:
+            if down._sink is not tk or down._source is not down_source: return 'temporary_connection: the former first inlet of the downstream unit does not feed the temporary sink from its old source'
+        # the temporary stream links the two temporary units
+        if not any(is_real(t) and t._sink is tk for t in ts.outs): return 'temporary_connection: no stream runs from the temporary source to the temporary sink'
+        U.note('post:temp-conn:both-ends')
         return None
     raise ValueError(o)
 
@@ -779,9 +989,9 @@ def describe(U, op):
     """(key variant suffix, reach counters) of the call form the operation takes on the live state; evaluated before the call."""
     o = op['op']; variant = ''; hits = []
     seq = U.seq(op['u'], op['side']) if 'side' in op and 'u' in op else None
-    if seq is not None: variant = '/fixed' if seq._fixed_size else '/variable'
+    if seq is not None: variant = '/fixed' if U.fixed(op['u'], op['side']) else '/variable'
     if o == 'unit.insert':
-        u = U.units[op['u']]; variant = '/variable-outs' if not u._outs_size_is_fixed else ('/explicit' if op.get('explicit') else '/fixed')
+        u = U.units[op['u']]; variant = '/variable-outs' if not U.fixed_of(u, 'out') else ('/explicit' if op.get('explicit') else '/fixed')
         if op.get('mode') == 'v2':
             kw, expect, X, I, added = insert_plan(U, op)
             if op.get('foreign_in') is not None or op.get('foreign_out') is not None:
@@ -854,6 +1064,7 @@ def run_sequence(U, ops, rec, clause, case):
             continue
         o = op['op']
         variant, hits = describe(U, op)
+        del U.notes[:]
         try:
             with warnings.catch_warnings():
                 warnings.simplefilter('ignore')
@@ -862,20 +1073,28 @@ def run_sequence(U, ops, rec, clause, case):
             rec.exception(f'{clause}', e, case=case, what=f'step {k} {op} ({o}{variant}) raised {type(e).__name__}: {str(e)[:150]}')
             rec.violations  # noqa
             return n_eff, False
+        if isinstance(post, Skip):
+            rec.hit(f'{o}:skipped'); rec.refuse(f'{o} not called: {post.reason}')
+            continue
         if isinstance(post, Refused):
-            # documented refusal: counted, not judged.  The refused call may have run part of its assignments; the graph is looked at only to stop a
-            # history whose later steps could otherwise be blamed for a state the refused call left behind.
+            # documented refusal (the harness saw on the inputs that it is due): the raise itself is counted, not judged.  The refused call may have run part of
+            # its assignments: the graph it leaves must still be consistent (a stream left half-docked by a call that raised is a violation of the invariant).
             rec.refuse(post.reason)
+            rec.hit(f'refused:{o}'); rec.hit('refused:graph-judged')
             for h in hits:
                 if h.endswith('-refused'): rec.hit(h)
-            if check(U):
+            errs = check(U)
+            if not rec.check(not errs, clause, f'{o}{variant}/refused/{post.slug}/left-inconsistent-graph',
+                             f'step {k} {op} was refused ({post.reason}) and left an inconsistent graph: {errs[:3]}', detail={'errors': errs[:8], 'step': k}, case=case):
                 rec.hit('refusal-left-inconsistent-graph')
                 return n_eff, False
             continue
         n_eff += 1
         name = 'op:' + o
         rec.hit(name)
-        for h in hits: rec.hit(h)
+        for h in U.notes: rec.hit(h)
+        for h in hits:
+            if not h.endswith('-refused'): rec.hit(h)      # '*-refused' counters prove a refusal: hit in the Refused branch only
         if o == 'set':
             s = U.resolve(op['s'])
         if o == 'unit.disconnect' and op.get('join'): rec.hit('op:unit.disconnect-join')
@@ -884,9 +1103,12 @@ def run_sequence(U, ops, rec, clause, case):
         errs = check(U)
         if U.temps: rec.hit('temp-conn:units-checked')
         if U.evicted_auto: rec.hit('ever-seen:auto-created-stream-evicted')
-        if post: errs = [post] + errs
+        suffix = ''
+        if post:
+            errs = [str(post)] + errs
+            if getattr(post, 'suffix', ''): suffix = '/' + post.suffix
         if errs:
-            rec.violation(f'C18/{clause}/{o}{variant}', f'after step {k} {op}: {errs[:3]}', detail={'errors': errs[:8], 'step': k}, case=case)
+            rec.violation(f'C18/{clause}/{o}{variant}{suffix}', f'after step {k} {op}: {errs[:3]}', detail={'errors': errs[:8], 'step': k}, case=case)
             return n_eff, False
         rec.ok(clause)
     return n_eff, True
@@ -910,7 +1132,7 @@ def enabled_ops(U, extras=True):
                     ops.append({'op': 'set', 'u': u, 'side': side, 'i': i, 's': r})
                 ops.append({'op': 'pop', 'u': u, 'side': side, 'i': i})
                 if is_real(seq[i]): ops.append({'op': 'remove', 'u': u, 'side': side, 'i': i})
-            if not seq._fixed_size:
+            if not U.fixed(u, side):
                 for r in srefs:
                     ops.append({'op': 'append', 'u': u, 'side': side, 's': r})
                     ops.append({'op': 'insert', 'u': u, 'side': side, 'i': 0, 's': r})
@@ -959,7 +1181,7 @@ def extra_ops(U):
                 ops.append({'op': 'set', 'u': u, 'side': side, 'i': -1, 's': SUB[0], 'x': 'negative-index'})
                 ops.append({'op': 'pop', 'u': u, 'side': side, 'i': -1, 'x': 'negative-index'})
                 ops.append({'op': pipe, 'u': u, 'i': n - 1, 's': PA, 'idx_read': True, 'mix': True, 'x': pipe})
-            if not seq._fixed_size:
+            if not U.fixed(u, side):
                 for r in SUB + [None]:
                     ops.append({'op': 'set', 'u': u, 'side': side, 'i': n, 's': r, 'x': 'set-at-len'})
                 for i in sorted({1, n}):
